@@ -26,6 +26,48 @@ def emit_and_check(ctx, name, module, cfg, timeout=3000):
     return path, n
 
 
+RARE_QUICK = ["merge-into-confirmed-prev", "merge-into-buffered-prev", "flush-after-merge-send4", "send4-marks-unmarked-lifecycle",
+              "merge-skipped-not-all-queued", "upd-absorb-unresume", "final-flush-marks-unmarked-published-lifecycle",
+              "send4-marks-unmarked-lifecycle-of-other-ecu"]
+RARE_THOROUGH = RARE_QUICK + ["merge-confirmed-into-buffered-prev", "merge-confirmed-into-confirmed-prev"]
+MERGE_TAGS = {"merge-into-confirmed-prev", "merge-into-buffered-prev", "merge-confirmed-into-buffered-prev",
+              "merge-confirmed-into-confirmed-prev"}
+
+
+def scripted_scenarios(ctx, binp, nscripts):
+    """deep scenarios: the driver composes streams (interleaved per-ECU boot scripts, late arrivals, 6-12 messages), TLC runs the
+    design model on every script (spec/LcScripted.tla: invariants C05/C06/C07/NoPanic + prediction + path tags), the predictions
+    of all iteration orders of one script are grouped, and the driver replays the scripts on the real detector"""
+    scripts = ctx.path("scripts.ndjson")
+    p = c.run([binp, "--gen-scripts", str(nscripts), "--seed", str(ctx.seed), "--out", scripts], timeout=600)
+    res = c.tlc_must_pass(ctx, "scripted", "LcScripted.tla", "LcScripted.cfg", env={"SCRIPTS": scripts}, timeout=7000)
+    by_sid = {}
+    cov = ctx.extra.setdefault("model_paths_behaviours", {})
+    scov = ctx.extra.setdefault("scripted_paths_scripts", {})
+    for payload in res.printed.get("SCN", []):
+        d = json.loads(json.loads(payload))
+        by_sid.setdefault(d["sid"], []).append(d)
+    path = ctx.path("scn-scripted.ndjson")
+    with open(path, "w") as f:
+        for sid in sorted(by_sid):
+            alts = by_sid[sid]
+            tags = set()
+            for a in alts:
+                tags.update(a["paths"])
+            for t in tags:
+                cov[t] = cov.get(t, 0) + 1
+                scov[t] = scov.get(t, 0) + 1
+            f.write(json.dumps({"sid": sid, "inputs": alts[0]["inputs"], "chain": bool(tags & MERGE_TAGS),
+                                "alts": [{k: a[k] for k in ("delivered", "pub", "panic", "c05", "c06", "c07")} for a in alts]}) + "\n")
+    if len(by_sid) != nscripts:
+        raise c.ToolError("scripted: TLC produced predictions for %d of %d scripts" % (len(by_sid), nscripts))
+    ctx.extra["scripted"] = {"scripts": nscripts, "predictions": sum(len(v) for v in by_sid.values()),
+                             "scripts_with_several_iteration_order_outcomes": sum(1 for v in by_sid.values() if len(v) > 1),
+                             "longest_script": max(len(v[0]["inputs"]) for v in by_sid.values())}
+    os.remove(scripts)
+    return path
+
+
 def drive(ctx, binp, args, out):
     p = c.run([binp, "--out", out] + args, timeout=2400, check=False)
     if p.returncode != 0:
@@ -34,7 +76,7 @@ def drive(ctx, binp, args, out):
     return json.loads(p.stdout.strip().splitlines()[-1])
 
 
-def run_lc(ctx, prop, emit_cfgs, mc_cfgs, driver_args, clean_cfgs=(), what=""):
+def run_lc(ctx, prop, emit_cfgs, mc_cfgs, driver_args, clean_cfgs=(), what="", scripted=0):
     binp = c.build_harness("lc")
     stats = {"replayed": 0, "fast_path": 0, "slow_path": 0, "drift": 0, "panics": 0, "cases_traced": 0, "lines": 0}
     traces = []
@@ -50,6 +92,18 @@ def run_lc(ctx, prop, emit_cfgs, mc_cfgs, driver_args, clean_cfgs=(), what=""):
         scn, n = emit_and_check(ctx, name, "CleanBoots.tla" if ent in list(clean_cfgs) else "LcDetector.tla", cfg)
         out = ctx.path("trace-%s.ndjson" % name)
         st = drive(ctx, binp, ["--scenarios", scn, "--first-case", str(first_case), "--seed", str(ctx.seed)] + extra, out)
+        os.remove(scn)
+        first_case = st["cases_traced"]
+        for k in ("replayed", "fast_path", "slow_path", "drift", "panics"):
+            stats[k] += st[k]
+        stats["lines"] += st["lines"]
+        drift_samples += st.get("drift_samples", [])
+        traces.append(out)
+    # (d2) deep composed scenarios through the scripted design model
+    if scripted:
+        scn = scripted_scenarios(ctx, binp, scripted)
+        out = ctx.path("trace-scripted.ndjson")
+        st = drive(ctx, binp, ["--scenarios", scn, "--first-case", str(first_case), "--seed", str(ctx.seed)], out)
         os.remove(scn)
         first_case = st["cases_traced"]
         for k in ("replayed", "fast_path", "slow_path", "drift", "panics"):
@@ -100,6 +154,8 @@ def run_lc(ctx, prop, emit_cfgs, mc_cfgs, driver_args, clean_cfgs=(), what=""):
                 "upd-new", "upd-absorb"]
         if any(len(e) > 2 and "--epoch0" in e[2] for e in emit_cfgs):
             need += ["new-lc-timestamp-beyond-reception-time", "upd-timestamp-beyond-reception-time"]
+        if scripted:
+            need += RARE_QUICK if ctx.quick() else RARE_THOROUGH
         miss = [t for t in need if not ctx.extra.get("model_paths_behaviours", {}).get(t)]
         if miss:
             raise c.ToolError("vacuity: no replayed behaviour takes the code paths %s" % miss)
